@@ -12,6 +12,7 @@ interleavings share one state; the shape of Put comes from the regenerated facts
   putfail <hex|->        putfailgen <start> <len>   (Put under a one-shot data AcquirePage fault)
   g-snap   g-read   g-truncdata   g-truncindex      (the steps of one GC call)
   setapp <s>                                        (SetAppendedSeq)
+  putfailidx <hex|->     (Put under a one-shot INDEX AcquirePage fault)
 -/
 import LinVerif.Util.Proto
 import LinVerif.Model.Queue
@@ -86,6 +87,13 @@ def seqPutFail (d : DSt) (m : Msg) : DSt × String :=
   | (_, .tooLarge) => (d, "err too-large")
   | (st, .acquireFailed) => ({ d with σ := withSt d.σ st }, "err acquire " ++ showQ st.q)
 
+def seqPutFailIdx (d : DSt) (m : Msg) : DSt × String :=
+  if d.σ.busy ≠ 0 then (d, "not-enabled") else
+  match putFI d.σ.st m with
+  | (st, .ok s) => ({ d with σ := withSt d.σ st }, s!"ok seq={s} {showCur st.q}")
+  | (_, .tooLarge) => (d, "err too-large")
+  | (st, .acquireFailed) => ({ d with σ := withSt d.σ st }, "err acquire " ++ showQ st.q)
+
 def seqPutN (d : DSt) (m : Msg) : Nat → DSt × String
   | 0 => (d, "ok none")
   | 1 => seqPut d m
@@ -135,6 +143,10 @@ def step (d : DSt) (ws : List String) : DSt × String :=
   | ["putfail", w] =>
     match parseMsg w with
     | some m => seqPutFail d m
+    | none => (d, "bad-op")
+  | ["putfailidx", w] =>
+    match parseMsg w with
+    | some m => seqPutFailIdx d m
     | none => (d, "bad-op")
   | ["putfailgen", a, b] =>
     match a.toNat?, b.toNat? with
